@@ -67,6 +67,11 @@ pub struct BusState {
     pub refuse_adds: u32,
     /// rules whose AddMatch was refused
     pub refused: Vec<String>,
+    /// the owner of the next name we get queued for releases it at that very instant: NameAcquired follows the
+    /// InQueue reply in the same write
+    pub handover_after_queue: bool,
+    /// how often that happened
+    pub handovers: u32,
 }
 
 pub type Bus = Arc<Mutex<BusState>>;
@@ -283,6 +288,18 @@ pub async fn run_bus(w: World, raw: RawEnd, bus: Bus, cfg: BusCfg) {
                 }
                 reply_code = code;
                 out.extend(ret(&[Val::U32(code)]).encode());
+                if code == 2 && bus.lock().unwrap().handover_after_queue {
+                    let sigs = {
+                        let mut b = bus.lock().unwrap();
+                        b.handover_after_queue = false;
+                        b.handovers += 1;
+                        let st = b.names.entry(s0.clone()).or_default();
+                        other_releases(st)
+                    };
+                    for s in sigs {
+                        out.extend(driver_signal(&bus, s, &[Val::str(&s0)], true).encode());
+                    }
+                }
             }
             "ReleaseName" => {
                 let (code, sigs) = {
